@@ -821,13 +821,23 @@ func (*GreatestFunction).Execute
   props C06
   option safety
   requires validated-arguments: f != nil && len(args) >= 1
-  modifies *
+  ensures never-an-error: result1 == nil
+  ensures any-null-argument-gives-null: exists(i, 0, len(args), args[i] == nil) ==> result0 == nil
+  ensures the-result-is-one-of-the-arguments: forall(i, 0, len(args), args[i] != nil) ==> exists(i, 0, len(args), result0 == args[i])
+  ensures numeric-arguments-give-the-greatest: forall(i, 0, len(args), args[i] != nil && second(cast.ToFloat64E(args[i])) == nil) ==> second(cast.ToFloat64E(result0)) == nil && forall(i, 0, len(args), cast.ToFloat64E(result0) >= cast.ToFloat64E(args[i]))
+  loop 1 invariant 1 <= i && i <= len(args) && max != nil && forall(j, 0, i, args[j] != nil) && exists(j, 0, i, max == args[j])
+  loop 1 invariant forall(j, 0, len(args), args[j] != nil && second(cast.ToFloat64E(args[j])) == nil) ==> second(cast.ToFloat64E(max)) == nil && forall(j, 0, i, cast.ToFloat64E(max) >= cast.ToFloat64E(args[j]))
 
 func (*LeastFunction).Execute
   props C06
   option safety
   requires validated-arguments: f != nil && len(args) >= 1
-  modifies *
+  ensures never-an-error: result1 == nil
+  ensures any-null-argument-gives-null: exists(i, 0, len(args), args[i] == nil) ==> result0 == nil
+  ensures the-result-is-one-of-the-arguments: forall(i, 0, len(args), args[i] != nil) ==> exists(i, 0, len(args), result0 == args[i])
+  ensures numeric-arguments-give-the-least: forall(i, 0, len(args), args[i] != nil && second(cast.ToFloat64E(args[i])) == nil) ==> second(cast.ToFloat64E(result0)) == nil && forall(i, 0, len(args), cast.ToFloat64E(result0) <= cast.ToFloat64E(args[i]))
+  loop 1 invariant 1 <= i && i <= len(args) && min != nil && forall(j, 0, i, args[j] != nil) && exists(j, 0, i, min == args[j])
+  loop 1 invariant forall(j, 0, len(args), args[j] != nil && second(cast.ToFloat64E(args[j])) == nil) ==> second(cast.ToFloat64E(min)) == nil && forall(j, 0, i, cast.ToFloat64E(min) <= cast.ToFloat64E(args[j]))
 
 func (*CaseWhenFunction).Execute
   props C06
